@@ -8,7 +8,7 @@ CONSTANTS
   WIds = {5}
   LMode = "ones"
   ECodes = {0, 1}
-  TCodes = {11, 12, 31}
+  TCodes = {11, 31}
   QuadIds = {1, 2}
   KVariant = "code"
   ClampE = 15
